@@ -378,11 +378,14 @@ class Prop:
                 big = [q for q in range(len(sel)) if sel[q] >= 2]
                 if big and rng.random() < 0.6:
                     q = rng.choice(big); bad[q] = sel[q] + rng.choice([1, 2])      # both sizes >= 2 and different
+                    vbad = "size"
                 else:
                     bad = sel + [2]                                                  # one dimension too many
+                    vbad = "extra-dim"
                 vk = rng.choice(["np", "torch", "tn-tt", "tn-cp"])
                 v = g_value(rng, bad, vk)
-                return {"key": {"top": "tuple", "entries": per}, "vkind": "tn" if vk.startswith("tn") else vk, "vsub": vk, "value": v}
+                return {"key": {"top": "tuple", "entries": per}, "vkind": "tn" if vk.startswith("tn") else vk, "vsub": vk,
+                        "value": v, "vbad": vbad}
         for kind in ("int-oob", "too-many", "ell2", "value-shape"):
             for _ in range(80 if quick else 600):
                 N = rng.choice([1, 2, 3, 4]); shape = g_shape(rng, N, hi=4 if N < 4 else 3)
@@ -393,7 +396,7 @@ class Prop:
                 easy = ["int", "float", "np64", "torch0d"]
                 steps = history(shape, rng.randint(0, 2), easy, ["friendly", "full"]) + [m] + \
                     history(shape, rng.randint(0, 2), easy, ["friendly", "full"])
-                mk(tj, steps, "malformed", malformed=kind)
+                mk(tj, steps, "malformed", malformed=kind if kind != "value-shape" else "value-" + m["vbad"])
         # (e) default dtype float32
         sub = [c for c in cases if c["tags"]["stream"] in ("lattice", "history", "grammar") and not c["tags"]["hasU"]
                and not c["tags"]["value_hasU"]]
